@@ -725,6 +725,7 @@ htp_status_t htp_connp_REQ_HEADERS(htp_connp_t *connp) {
                         bstr *new_in_header = bstr_add_mem(connp->in_header, data, len);
                         if (new_in_header == NULL) return HTP_ERROR;
                         connp->in_header = new_in_header;
+                        connp->in_header_folded = 1;
                     } else {
                         HTP_VERIF_PROBE("req.hdr.fold_cap", connp, bstr_len(connp->in_header), len);
                         htp_log(connp, HTP_LOG_MARK, HTP_LOG_WARNING, 0, "Request field length exceeds folded maximum");
